@@ -1,0 +1,107 @@
+//go:build verif
+
+package localstore
+
+import (
+	"github.com/gauss-project/aurorafs/pkg/shed"
+)
+
+// Hooks for the model-based verification harness (/verif). Add-only; compiled
+// only with the build tag "verif".
+
+// VerifEntry is one index entry of a VerifDump.
+type VerifEntry struct {
+	Address         []byte
+	Data            []byte
+	BinID           uint64
+	StoreTimestamp  int64
+	AccessTimestamp int64
+	GCounter        uint64
+	PinCounter      uint64
+}
+
+// VerifDumpState is the content of every localstore index.
+type VerifDumpState struct {
+	Retrieval []VerifEntry // retrievalDataIndex
+	Access    []VerifEntry // retrievalAccessIndex
+	GC        []VerifEntry // gcIndex, in iteration (eviction) order
+	Pin       []VerifEntry // pinIndex
+	GCSize    uint64
+	Capacity  uint64
+}
+
+func verifAll(idx shed.Index) (out []VerifEntry, err error) {
+	err = idx.Iterate(func(item shed.Item) (bool, error) {
+		out = append(out, VerifEntry{
+			Address:         append([]byte(nil), item.Address...),
+			Data:            append([]byte(nil), item.Data...),
+			BinID:           item.BinID,
+			StoreTimestamp:  item.StoreTimestamp,
+			AccessTimestamp: item.AccessTimestamp,
+			GCounter:        item.GCounter,
+			PinCounter:      item.PinCounter,
+		})
+		return false, nil
+	}, nil)
+	return out, err
+}
+
+// VerifDump returns the content of all indexes and the gc size field.
+func (db *DB) VerifDump() (st VerifDumpState, err error) {
+	db.batchMu.Lock()
+	defer db.batchMu.Unlock()
+	if st.Retrieval, err = verifAll(db.retrievalDataIndex); err != nil {
+		return st, err
+	}
+	if st.Access, err = verifAll(db.retrievalAccessIndex); err != nil {
+		return st, err
+	}
+	if st.GC, err = verifAll(db.gcIndex); err != nil {
+		return st, err
+	}
+	if st.Pin, err = verifAll(db.pinIndex); err != nil {
+		return st, err
+	}
+	if st.GCSize, err = db.gcSize.Get(); err != nil {
+		return st, err
+	}
+	st.Capacity = db.capacity
+	return st, nil
+}
+
+// VerifSetNow replaces the package clock.
+func VerifSetNow(f func() int64) { now = f }
+
+// VerifCollectGarbage performs one synchronous collectGarbage run with the
+// given capacity (the store is otherwise opened with a capacity that the
+// background worker never reaches) and restores the capacity afterwards.
+func (db *DB) VerifCollectGarbage(capacity uint64) (collected uint64, done bool, err error) {
+	db.batchMu.Lock()
+	old := db.capacity
+	db.capacity = capacity
+	db.batchMu.Unlock()
+	defer func() {
+		db.batchMu.Lock()
+		db.capacity = old
+		db.batchMu.Unlock()
+	}()
+	return db.collectGarbage()
+}
+
+// VerifSetGCIteratorDoneHook installs the hook called between candidate
+// selection and eviction of a garbage collection run.
+func VerifSetGCIteratorDoneHook(f func()) { testHookGCIteratorDone = f }
+
+// VerifSetUpdateGCHook installs the hook called when an asynchronous access
+// update (updateGC) has been applied.
+func VerifSetUpdateGCHook(f func()) { testHookUpdateGC = f }
+
+// VerifSetGCBatchSize sets the per-run collection limit; returns the old one.
+func VerifSetGCBatchSize(n uint64) uint64 {
+	old := gcBatchSize
+	gcBatchSize = n
+	return old
+}
+
+// VerifWaitUpdateGC waits until every asynchronous access update has finished.
+func (db *DB) VerifWaitUpdateGC() { db.updateGCWG.Wait() }
